@@ -306,3 +306,23 @@ package sfnt
 //@     invariant fresh(widths) && len(widths) == len(outlines.Glyphs)
 //@   loop 1
 //@     invariant fresh(widths) && len(widths) == len(outlines.Glyphs)
+
+// EnsureGlyphNames installs the names MakeGlyphNames computes: afterwards every
+// glyph has a non-empty name, glyph 0 is ".notdef", and the names of two
+// different glyphs differ (a0, b0, i0: arbitrary glyph indices).
+//@ spec gname(f *Font, i int) string = ite(is(f.Outlines, *glyf.Outlines), f.Outlines.(*glyf.Outlines).Names[i], f.Outlines.(*cff.Outlines).Glyphs[i].Name)
+//@ func (f *Font) EnsureGlyphNames()   props: C20
+//@   any i0 int, a0 int, b0 int
+//@   opt only=frame
+//@   requires fontOK(f) && nglyphs(f) >= 1
+//@   requires is(f.Outlines, *cff.Outlines) ==> forall i int :: forall j int :: 0 <= i && i < j && j < nglyphs(f) ==> f.Outlines.(*cff.Outlines).Glyphs[i] != f.Outlines.(*cff.Outlines).Glyphs[j]   // no glyph object is shared between two glyph IDs
+//@   ensures is(f.Outlines, *glyf.Outlines) ==> len(f.Outlines.(*glyf.Outlines).Names) == nglyphs(f)
+//@   ensures gname(f, 0) == ".notdef"
+//@   ensures 0 <= i0 && i0 < nglyphs(f) ==> gname(f, i0) != ""
+//@   ensures 0 <= a0 && a0 < b0 && b0 < nglyphs(f) ==> gname(f, a0) != gname(f, b0)
+//@   modifies *
+//@   loop 0
+//@     invariant fresh(glyphNames) && len(glyphNames) == len(f.Glyphs) && glyphNames[0] == ".notdef" && (forall i int :: 0 <= i && i < len(glyphNames) ==> glyphNames[i] != "") && (0 <= a0 && a0 < b0 && b0 < len(glyphNames) ==> glyphNames[a0] != glyphNames[b0])
+//@     invariant forall i int :: 0 <= i && i < iter ==> f.Glyphs[i].Name == glyphNames[i]
+//@     invariant forall i int :: 0 <= i && i < len(f.Glyphs) ==> f.Glyphs[i] != nil
+//@     invariant forall i int :: forall j int :: 0 <= i && i < j && j < len(f.Glyphs) ==> f.Glyphs[i] != f.Glyphs[j]
